@@ -93,3 +93,10 @@ reg("C16", level="model_checking", overlay="plain",
     variants=[{"name": "main"}, {"name": "sched", "overlay": "sched", "args": ["-vmode", "sched"], "workers": 1},
               {"name": "race", "race": True, "workers": 1, "args": ["-vmode", "race"]}],
     assumptions=["simultaneously ready events are equivalent to one of their sequential orders (reduction argument in DESIGN.md section 3)"])
+
+reg("C01", level="model_checking", overlay="plain",
+    technique="stateless exploration of multi-round source histories on the real sync.Run loop in synctest virtual time, reference model for clean rounds",
+    level_text="sync.Run itself (context timeouts, collector goroutines, clamps, midpoint) runs in a bubble against scripted sources and a recording discipline; every history inside the bounds is executed and each round is held to exactly-one-correction, the applicable cap, and - where every source answered in time - a reference model of the statement.",
+    budget={"quick": 150, "thorough": 1200}, workers={"quick": 16, "thorough": 16},
+    assumptions=["rounds after a failed or late source are held to the bound and the exactly-once rule only (the statement does not determine which stale slot values are aggregated)",
+                 "group aggregates of the model use the repository's own FaultTolerantMidpoint (decided separately by C02)"])
